@@ -58,6 +58,7 @@ fn stateless_stage(r: &mut Rng) -> (String, Option<Vec<String>>) {
 pub fn check(ctx: &mut Ctx) {
     check_long_prefix(ctx);
     check_mixed_types(ctx);
+    check_indexed_write(ctx);
     let n = ctx.budget(1600, 60000);
     for _ in 0..n {
         let mut r = ctx.rng.fork();
@@ -304,6 +305,73 @@ fn check_mixed_types(ctx: &mut Ctx) {
             F::Agree => ctx.case("model", &key, "pass", info),
             F::Skip(w) => ctx.case("model", "", "skip", serde_json::json!({"why": w.split(':').next().unwrap_or("").to_string()})),
             F::Disagree(d) => ctx.case("model", &key, "fdis", serde_json::json!({"what": d.chars().take(800).collect::<String>(), "case": info})),
+        }
+    }
+}
+
+/// `split … as <path>` with an indexed or nested target: the write succeeds exactly when the same
+/// path can be READ afterwards (an index outside the row's array is an error: no row), it changes
+/// nothing but the addressed element, and the result does not depend on the neighbouring lines
+fn check_indexed_write(ctx: &mut Ctx) {
+    let n = ctx.budget(200, 6000);
+    for _ in 0..n {
+        let mut r = ctx.rng.fork();
+        let idx = *r.pick(&[0i64, 1, 2, 3, 4, -1, -2, -3, -4, -5, 7]);
+        let target = match r.below(3) {
+            0 => format!("arr[{}]", idx),
+            1 => format!("arr[{}].tag", idx),
+            _ => format!("o.list[{}]", idx),
+        };
+        let nrows = 1 + r.below(6);
+        let mut lines: Vec<String> = vec![];
+        for i in 0..nrows {
+            let len = r.below(5);
+            let elems: Vec<String> = (0..len).map(|j| if target.ends_with(".tag") { format!("{{\"v\":{}}}", j) } else { format!("{}", j * 10) }).collect();
+            lines.push(format!("{{\"id\":{},\"x\":\"a-b\",\"arr\":[{}],\"o\":{{\"list\":[{}],\"keep\":true}}}}\n", i, elems.join(","), elems.join(",")));
+        }
+        let input: Vec<u8> = lines.concat().into_bytes();
+        let q1 = format!("* | json | split(x) on \"-\" as {}", target);
+        let q2 = format!("{} | {} as chk", q1, target);
+        let key = ckey(&q1, &input);
+        let info = serde_json::json!({"query": q1, "input": String::from_utf8_lossy(&input)});
+        let (r1, r2) = (imp::run(&q1, &input, "json", 10), imp::run(&q2, &input, "json", 10));
+        if !r1.compiled || !r2.compiled || r1.panicked.is_some() || r2.panicked.is_some() {
+            ctx.case("indexed-write", "", "skip", serde_json::json!({"why": "query rejected or panicked (judged elsewhere)", "case": info}));
+            continue;
+        }
+        let ids = |b: &[u8]| -> Vec<String> { String::from_utf8_lossy(b).lines().filter_map(|l| l.split("\"id\":").nth(1).map(|x| x.chars().take_while(|c| c.is_ascii_digit()).collect())).collect() };
+        let mut problem: Option<String> = None;
+        if ids(&r1.stdout) != ids(&r2.stdout) {
+            problem = Some(format!("rows written: ids {:?}; rows on which the same path can be read back: ids {:?}", ids(&r1.stdout), ids(&r2.stdout)));
+        }
+        // per line = whole stream
+        let mut solo = vec![];
+        for l in &lines {
+            solo.extend(imp::run(&q1, l.as_bytes(), "json", 10).stdout);
+        }
+        if problem.is_none() && crate::canon::normalized_lines(&solo) != crate::canon::normalized_lines(&r1.stdout) {
+            problem = Some("a line's output depends on the other lines".into());
+        }
+        // nothing but the addressed element changes: `keep`, `x`, `id` and the lengths of both arrays
+        if problem.is_none() {
+            for row in crate::canon::normalized_lines(&r1.stdout).unwrap_or_default() {
+                let t = super::c03::to_json(&row);
+                if !t.contains("\"keep\":true") || !t.contains("\"x\":\"a-b\"") {
+                    problem = Some(format!("an unnamed field changed: {}", t));
+                }
+            }
+        }
+        match problem {
+            Some(w) => ctx.case("indexed-write", &key, "viol", serde_json::json!({"class": "", "what": w, "got": String::from_utf8_lossy(&r1.stdout), "case": info})),
+            None => {
+                ctx.case("indexed-write", &key, "pass", info.clone());
+                let c = run_both(ctx, &q1, &input);
+                match compare(&c, true) {
+                    F::Agree => ctx.case("model", &key, "pass", info),
+                    F::Skip(w) => ctx.case("model", "", "skip", serde_json::json!({"why": w.split(':').next().unwrap_or("").to_string()})),
+                    F::Disagree(d) => ctx.case("model", &key, "fdis", serde_json::json!({"what": d.chars().take(800).collect::<String>(), "case": info})),
+                }
+            }
         }
     }
 }
